@@ -8,7 +8,7 @@ from __future__ import annotations
 
 from typing import Any, Dict, List, Tuple
 
-from checks.codec_common import make_unit_fn, prog_case, replay_with, tagkey, traced_decode
+from checks.codec_common import make_unit_fn, minimize_keys, prog_case, replay_with, tagkey, traced_decode
 from mcx.core import Ctx, Part, digest, pmap
 from odxmodel import harness, refodx, space
 from odxmodel.harness import jval, show
@@ -56,8 +56,10 @@ def check_program(L: harness.Loaded, prog: Dict[str, Any], part: Part) -> None:
             have_ref = False
             if isinstance(r, refodx.DontCare):
                 part.count("dont_care")
-                continue
-            part.count("accepted_though_reference_rejects")
+                if r.lossy:
+                    continue
+            else:
+                part.count("accepted_though_reference_rejects")
         dec, dexc, consumed, _ = traced_decode(msg, pdu)
         part.add("nontrivial", digest((prog["tags"], pdu.hex())))
         if dexc is not None:
@@ -103,6 +105,7 @@ def run(ctx: Ctx) -> None:
     ctx.assumptions = ["complete(v) is computed by odxmodel/refodx.py; where the reference has no opinion (DontCare) the case is skipped and counted",
                        "RESERVED keys, the representation of MATCHING-REQUEST values are not compared"]
     pmap(ctx, unit_fn, units)
+    minimize_keys(ctx)
     ctx.counts["traces_validated_against_impl"] = ctx.counts.get("accepted", 0)
     ctx.sample({"program": "i_Ux_l_12_3_a", "values": {"v": 2748}, "pdu": "e055", "decoded": {"v": 2748}})
     ctx.guard("accepted > 1000", ctx.counts.get("accepted", 0) > 1000)
